@@ -20,7 +20,9 @@ RULE = ("(a) document engine: a registry of 78 codec entry points (message, pres
         "extension / description, presence priority, result set, IBB, HTTP upload size, RPC fault code, stanza error code and max file "
         "size, external service port, file metadata, thumbnail, tune length/rating, pubsub node config and subscribe options, entity time "
         "offset) is set through the public setter over all values (8/16-bit types) or the boundary set of the declared type (every power-"
-        "of-two edge from 2^7 to 2^64), serialised, parsed and read back through the getter. non-trivial = admitted pairs and all mutants")
+        "of-two edge from 2^7 to 2^64), serialised, parsed and read back through the getter; six date-time fields (message stamp, presence "
+        "last interaction, entity time, file last-modified, external service expiry, error retry date) likewise over instants with and "
+        "without milliseconds, with positive and negative zone offsets, around 1970 / 2038 / a leap day. non-trivial = admitted pairs and all mutants")
 ASSUME = ["only sites the codec demonstrably stores as free text are driven through the text alphabet (probing), so nothing is demanded of enumerated/structured fields",
           "values outside the alphabets and more than one simultaneous edit are out of the bound",
           "XHTML-IM bodies are a documented raw write and appear only as corpus seeds"]
@@ -29,7 +31,7 @@ ASSUME = ["only sites the codec demonstrably stores as free text are driven thro
 def run(tier):
     os.environ["VERIF_CORPUS"] = os.path.join(C.VERIF, "corpus", "seeds.jsonl")
     return enum_check(PROP, HARNESS, tier, "exploration", RULE, ASSUME, args=["--opt", "engine=c01", "--opt", "corpus=" + os.environ["VERIF_CORPUS"]],
-                      witness=["admitted_pairs", "free_text_sites", "child_deletions", "child_duplications", "typed_field_checks", "integer_fields", "cooccurrence_probes"])
+                      witness=["admitted_pairs", "free_text_sites", "child_deletions", "child_duplications", "typed_field_checks", "integer_fields", "datetime_fields", "cooccurrence_probes"])
 
 
 def replay(path):
